@@ -128,22 +128,40 @@ Fixpoint tm_node (n : node) : tm :=
   | DocType s => L_ [N_ 6; tm_str s]
   end.
 
+Definition upos_of_xt (x : xt) : upos :=
+  match x with
+  | XL [XN 0; XS k] => UGlyph k
+  | XL [XN 1; XN i] => UAnchor (N.to_nat i)
+  | XL [XN 2; XN i] => UGuide (N.to_nat i)
+  | XL [XN 3; XN i] => UContour (N.to_nat i)
+  | XL [XN 4; XN i; XN j] => UPoint (N.to_nat i) (N.to_nat j)
+  | XL [XN 5; XN i] => UComp (N.to_nat i)
+  | _ => UGlyph []
+  end.
 Record c02case := mkCase {
   c_glyph : glyph; c_opts : wopts;
   c_ff : list (fl * str); c_ff3 : list (fl * str); c_fi : list (Z * str); c_fh : list (N * str);
-  c_pf : list (str * option fl) }.
+  c_pf : list (str * option fl);
+  c_op : wop; c_uids : list upos }.
+(** a case: glyph, options, formatter tables and, for the items of a write history, the
+    operation (0 encode, 1 save) and the positions of UID values *)
 Definition c02case_of_xt (x : xt) : c02case :=
   match x with
   | XL [g; XL [XN ch; XN cnt; XN sq]; XL [t1; t2; t3; t4; XL t5]] =>
       mkCase (glyph_of_xt g) (mkOpts ch (N.to_nat cnt) (0 <? sq))
              (fl_table_of_xt t1) (fl_table_of_xt t2) (z_table_of_xt t3) (n_table_of_xt t4)
-             (map pf_entry_of_xt t5)
-  | _ => mkCase (glyph_new []) (mkOpts 9 1 false) [] [] [] [] []
+             (map pf_entry_of_xt t5) OpEncode []
+  | XL [g; XL [XN ch; XN cnt; XN sq]; XL [t1; t2; t3; t4; XL t5]; XL [XN op; XL us]] =>
+      mkCase (glyph_of_xt g) (mkOpts ch (N.to_nat cnt) (0 <? sq))
+             (fl_table_of_xt t1) (fl_table_of_xt t2) (z_table_of_xt t3) (n_table_of_xt t4)
+             (map pf_entry_of_xt t5) (if 0 <? op then OpSave else OpEncode) (map upos_of_xt us)
+  | _ => mkCase (glyph_new []) (mkOpts 9 1 false) [] [] [] [] [] OpEncode []
   end.
 
 Definition encode_case (c : c02case) : res node :=
-  encode_glif (fun x => fl_lookup x (c_ff c)) (fun x => fl_lookup x (c_ff3 c))
-              (fun z => z_lookup z (c_fi c)) (fun n => n_lookup n (c_fh c)) (c_opts c) (c_glyph c).
+  run_op (fun x => fl_lookup x (c_ff c)) (fun x => fl_lookup x (c_ff3 c))
+         (fun z => z_lookup z (c_fi c)) (fun n => n_lookup n (c_fh c))
+         (c_op c, c_opts c, mkW (c_glyph c) (c_uids c)).
 (** class predicates of the glyph: [F3] *)
 Definition run_classes (c : c02case) : tm :=
   L_ [tm_bool (c02_f3 (c_opts c) (c_glyph c))].
